@@ -171,7 +171,7 @@ func TestC08Recovery(t *testing.T) {
 				}
 				s.logf("burst of %d consecutive readings up to slot %d", n, latest)
 				world.WriteEnergy(cdir, file.String())
-				if !c.VerifStep("tick") {
+				if !world.Step(c, "tick") {
 					s.fail("client did not take the granted tick (panics %+v)", client.VerifPanics())
 				}
 				collect(unticked)
@@ -180,7 +180,7 @@ func TestC08Recovery(t *testing.T) {
 			"tick": func(t *rapid.T) {
 				world.WriteEnergy(cdir, file.String())
 				s.logf("client tick (%d new readings)", unticked)
-				if !c.VerifStep("tick") {
+				if !world.Step(c, "tick") {
 					s.fail("client did not take the granted tick (panics %+v)", client.VerifPanics())
 				}
 				collect(unticked)
@@ -278,7 +278,7 @@ func TestC08Recovery(t *testing.T) {
 		t.Repeat(actions)
 		// final fault-free round, then everything arrives
 		world.WriteEnergy(cdir, file.String())
-		if !c.VerifStep("tick") {
+		if !world.Step(c, "tick") {
 			s.fail("client did not take the final tick")
 		}
 		collect(unticked)
